@@ -19,12 +19,14 @@ def run(rep, tier, seed, selftest, st):
     programs = 0
     executions = 0
     nonidentity = 0
+    shared = 0
     for f in files:
         for line in open(f):
             if '"ev":"toolerror"' in line:
                 raise common.ToolError("generator/projection: " + line[:400])
             r = json.loads(line)
             programs += 1
+            shared += 1 if r.get("shared", 0) >= 2 else 0
             executions += len(r["runs"])
             nonidentity += sum(1 for x in r["runs"] if x["order"] != sorted(x["order"]))
     before = len(rep.violations)
@@ -49,8 +51,11 @@ def run(rep, tier, seed, selftest, st):
 
     ok_runs, events, outputs = mu.validate_traces("Trace_Containers", "Trace_Containers_rule.cfg", files, on_stuck,
                                                   max_rounds=10)
-    log("[trace] perms: %d generated programs x %d orders (%d compilations + executions) validated by TLC: "
-        "%d programs accepted, %d violations" % (programs, nperms, executions, ok_runs, len(rep.violations) - before))
+    log("[trace] perms: %d generated programs (%d with one name shared by a constant / structure / function) x %d orders "
+        "(%d compilations + executions) validated by TLC: %d programs accepted, %d violations"
+        % (programs, shared, nperms, executions, ok_runs, len(rep.violations) - before))
+    if programs >= 20 and shared == 0:
+        raise common.ToolError("perms: no generated program shares a name between namespaces (vacuous)")
     if selftest and files:
         lines = open(files[0]).read().splitlines()
         r = json.loads(lines[0])
@@ -71,7 +76,7 @@ def run(rep, tier, seed, selftest, st):
         r = json.loads(open(files[0]).readline())
         r["runs"] = [dict(x, out=x["out"][:120]) for x in r["runs"][:2]]
         st["samples"].append({"part": "perms", "record": r})
-    st["detail"]["perms"] = {"programs": programs, "orders_per_program": nperms, "executions": executions,
+    st["detail"]["perms"] = {"programs": programs, "programs_with_shared_names": shared, "orders_per_program": nperms, "executions": executions,
                              "programs_accepted_by_tlc": ok_runs}
 
 
